@@ -152,14 +152,30 @@ Definition d_upsample (D : nat) (L : nat) (dims : option (list nat)) (ac : bool)
 (* avg_pool(kernel_size (scalar or per tensor dim ... X?), stride = kernel): ks given per GRID axis here *)
 Definition d_pool (D : nat) (ks : list Z) (ceil_mode : bool) (im : nimg) : nimg :=
   all_axes D (fun k i => pool_ax k (nth k ks 1%Z) ceil_mode i) im.
-(* grid_resample(in_spacing, out_spacing): concentric lattice of the new size sampled with zeros padding;
-   the input is returned UNCHANGED when the new shape equals the old one (faithful to the code) *)
+(* grid_resample(in_spacing, out_spacing): the concentric lattice of the new size sampled with zeros padding.  The code
+   returns the input unchanged only when the resampled grid EQUALS the input grid (same spacing); with equal spacing the
+   source index of sample j is j itself, so the interpolation below returns the input as well *)
 Definition d_resample (D : nat) (s s' : list K) (newsize : list Z) (im : nimg) : nimg :=
-  if eqshape newsize (ishape im) then im
-  else all_axes D (fun k i => interp_ax PZeros k (resample_src (zget (ishape i) k) (nth k newsize 0%Z) (nth k s 0) (nth k s' 0))
-                                        (nth k newsize 0%Z) i) im.
+  all_axes D (fun k i => interp_ax PZeros k (resample_src (zget (ishape i) k) (nth k newsize 0%Z) (nth k s 0) (nth k s' 0))
+                                   (nth k newsize 0%Z) i) im.
 (* conv with one 1-D kernel used along every axis (zeros, "same" margin) *)
 Definition d_conv (D : nat) (w : list K) (im : nimg) : nimg := all_axes D (fun k i => freeze (corr_ax k w i)) im.
+(* conv with one n-D kernel tensor (kernel in tensor order [ky][kx] / [kz][ky][kx]; correlation as F.conv*d; zeros,
+   "same" margin; applied to the LAST axes of the image, here all of them) *)
+Definition getz (im : nimg) (J : list Z) : K := if in_box (ishape im) J then ival im J else 0.
+Definition d_conv2 (w : list (list K)) (im : nimg) : nimg :=
+  let ry := (zlen w / 2)%Z in let rx := (zlen (hd [] w) / 2)%Z in
+  mkI (ishape im)
+      (fun J => vsum (map (fun q => vsum (map (fun p => fst p * getz im [(zget J 0 + snd p - rx)%Z; (zget J 1 + snd q - ry)%Z])
+                                              (combine (fst q) (zseq (zlen (fst q))))))
+                          (combine w (zseq (zlen w))))).
+Definition d_conv3 (w : list (list (list K))) (im : nimg) : nimg :=
+  let rz := (zlen w / 2)%Z in let ry := (zlen (hd [] w) / 2)%Z in let rx := (zlen (hd [] (hd [] w)) / 2)%Z in
+  mkI (ishape im)
+      (fun J => vsum (map (fun r => vsum (map (fun q => vsum (map (fun p =>
+                   fst p * getz im [(zget J 0 + snd p - rx)%Z; (zget J 1 + snd q - ry)%Z; (zget J 2 + snd r - rz)%Z])
+                   (combine (fst q) (zseq (zlen (fst q)))))) (combine (fst r) (zseq (zlen (fst r))))))
+                          (combine w (zseq (zlen w))))).
 
 (* continuous per-axis source-index maps of the resizing operations, and the field-of-view condition of a position *)
 Definition rsz (ac : bool) (n m x : K) : K := if ac then x * (n - 1) / (m - 1) else (x + 1 / (1 + 1)) * n / m - 1 / (1 + 1).
